@@ -1,7 +1,7 @@
 import OASModel.VLM
 import OASModel.PG
 /-
-  OASModel.Compressible — the wiring of aerodynamics/compressible_states.py (without rotation rates and ground effect):
+  OASModel.Compressible — the wiring of aerodynamics/compressible_states.py (without ground effect):
     PGTransform (rotate meshes, points and normals into the wind frame, stretch)  →  the incompressible
     system of `VLM` at α = β = 0 with the *transformed* normals  →  InversePGTransform (unscale, rotate back).
 -/
@@ -23,6 +23,16 @@ def pgNormal (al be B : K) (s : VLM.Surf K) (i j : Nat) : V3 K :=
 def pgFlow (f : VLM.Flow K) : VLM.Flow K :=
   { f with alpha := 0, beta := 0, rotational := false }
 
+omit [Add K] [Sub K] [Div K] [Neg K] [Zero K] [One K] [NatCast K] [Elem K] [LT K] [DecidableLT K] in
+/-- `ScaleToPrandtlGlauert` on the rotational velocities: `x·β²`, `y·β`, `z·β` -/
+def scaleRotVel (B : K) (v : V3 K) : V3 K := ⟨v.x * (B * B), v.y * B, v.z * B⟩
+
+/-- onset velocity the Prandtl–Glauert-domain solve sees at the panel whose (body-frame) collocation point is `c`:
+the free stream `(v, 0, 0)` plus, with rotation rates, `ω × (c − cg)` rotated into the wind frame and scaled -/
+def pgOnset (f : VLM.Flow K) (al be B : K) (c : V3 K) : V3 K :=
+  VLM.freestreamDir (pgFlow f)
+    + (if f.rotational then scaleRotVel B (toWind al be (V3.cross f.omega (c - f.cg))) else 0)
+
 /-- `mtx[m, n]` of the Prandtl–Glauert system -/
 def aic (surfs : List (VLM.Surf K)) (f : VLM.Flow K) (M : K) (m n : Nat) : K :=
   let al := deg2rad f.alpha; let be := deg2rad f.beta; let B := betaPG M
@@ -36,12 +46,18 @@ def rhs (surfs : List (VLM.Surf K)) (f : VLM.Flow K) (M : K) (m : Nat) : K :=
   let al := deg2rad f.alpha; let be := deg2rad f.beta; let B := betaPG M
   match VLM.locate surfs m with
   | none => 0
-  | some (s, i, j) => -(V3.dot (VLM.onset (pgFlow f) (VLM.collPt (pgSurf al be B s) i j)) (pgNormal al be B s i j))
+  | some (s, i, j) => -(V3.dot (pgOnset f al be B (VLM.collPt s i j)) (pgNormal al be B s i j))
+
+/-- onset velocity of the Prandtl–Glauert-domain solve at global panel `k` -/
+def pgOnsetAt (surfs : List (VLM.Surf K)) (f : VLM.Flow K) (al be B : K) (k : Nat) : V3 K :=
+  match VLM.locate surfs k with
+  | none => 0
+  | some (s, i, j) => pgOnset f al be B (VLM.collPt s i j)
 
 /-- `sec_forces[m]`: panel force of the transformed problem, unscaled and rotated back -/
 def secForce (surfs : List (VLM.Surf K)) (f : VLM.Flow K) (M : K) (gamma : Nat → K) (m : Nat) : V3 K :=
   let al := deg2rad f.alpha; let be := deg2rad f.beta; let B := betaPG M
-  fromWind al be (unscaleForce B (VLM.panelForce (surfs.map (pgSurf al be B)) (pgFlow f) gamma m))
+  fromWind al be (unscaleForce B (VLM.panelForceWith (surfs.map (pgSurf al be B)) (pgFlow f) (pgOnsetAt surfs f al be B) gamma m))
 
 end
 end PG
